@@ -581,4 +581,30 @@ func checkAolListAccessorsWholeFamily(p *Prog, r *Report, kp func(string, string
 		}
 	}
 	r.Count("aol-list-accessor-iterators", n)
+	// every other iteration of an AOL family: bounded on both sides or on neither. One bound (Iterator(start, nil),
+	// ReverseIterator(nil, end)) walks on into the entries of the neighbouring topics and owners.
+	n2 := 0
+	for _, so := range p.StoreOps() {
+		if (so.Op != "Iterator" && so.Op != "ReverseIterator") || !InPkgs(so.Fn, "x/aol") || p.IsGenerated(so.Fn) {
+			continue
+		}
+		cc := so.Instr.Common()
+		name := calleeName(cc)
+		if !(strings.HasSuffix(name, ".Iterator") || strings.HasSuffix(name, ".ReverseIterator")) {
+			continue
+		}
+		args := cc.Args
+		if !cc.IsInvoke() && len(args) == 3 {
+			args = args[1:]
+		}
+		if len(args) != 2 {
+			continue
+		}
+		n2++
+		o := NewOrigin(p, so.Fn)
+		e0, e1 := emptyBytes(o.Of(args[0])), emptyBytes(o.Of(args[1]))
+		r.Check(e0 == e1, kp("LOOP", FuncName(so.Fn)+"#"+so.Op+"-bounded-on-both-sides-or-neither"), "an iteration inside a family's store has both bounds or none (a one-sided range leaves the prefix it started in)", p.Pos(so.Instr.Pos()),
+			"both or neither", fmt.Sprintf("%s calls %s(%s, %s): the walk is not confined to the entries that share the bounded side's prefix — the first entry it meets may belong to another topic or owner", FuncName(so.Fn), so.Op, o.Of(args[0]), o.Of(args[1])))
+	}
+	r.Count("aol-explicit-range-iterations", n2)
 }
